@@ -432,12 +432,31 @@ def entry_terms():
            ["Struct", [["u", ["Union", None, [["a", G.I(2, False, "b")], ["b", B]]]], ["t", B]]],
            ["Struct", [["p", ["Peek", B]], ["v", ["VarInt"]]]], ["Struct", [["o", ["Optional", ["ConstB", b"\x07"]]], ["v", B]]],
            ["Struct", [["a", ["RawCopy", G.I(2, False, "b")]], ["b", B]]], ["GreedyRange", ["Struct", [["a", B], ["b", ["CString", "ascii"]]]]]]
+    # end-relative positioning is independent of where the record starts, also inside the sub-streams of region constructs
+    I16 = G.I(2, False, "b")
+    body = ["Struct", [["body", ["OffsettedEnd", -2, ["GreedyBytes"]]], ["trailer", I16]]]
+    ts += [["FixedSized", 6, body], ["Prefixed", B, body, False], ["Struct", [["h", B], ["r", ["FixedSized", 5, body]], ["t", B]]],
+           ["NullTerminated", body, b"\x00", False, True, True],
+           ["Prefixed", B, ["Struct", [["last", ["Pointer", -1, B]], ["r", ["GreedyBytes"]]]], False],
+           ["FixedSized", 4, ["Struct", [["last2", ["Pointer", -2, I16]], ["a", B]]]],
+           ["Struct", [["h", B], ["f", ["FixedSized", 4, ["Struct", [[None, ["Seek", -1, 2]], ["last", B]]]]], ["t", B]]],
+           ["Array", 2, ["FixedSized", 3, ["Struct", [["e", ["OffsettedEnd", -1, ["GreedyBytes"]]], ["l", B]]]]],
+           ["ProcessXor", 1, ["Struct", [["e", ["OffsettedEnd", -1, ["GreedyBytes"]]], ["l", B]]]],
+           ["Prefixed", B, ["Prefixed", B, body, False], False]]
     return ts
 
 
 def uses_offsets(t):
-    s = repr(t)
-    return "'RawCopy'" in s or "'Tell'" in s or "'Pointer'" in s or "'Seek'" in s or "'OffsettedEnd'" in s
+    """the term reads or reports an absolute stream position (its result legitimately depends on the starting offset)"""
+    if isinstance(t, list):
+        if t and t[0] in ("RawCopy", "Tell"):
+            return True
+        if t and t[0] == "Pointer" and not (isinstance(t[1], int) and t[1] < 0):
+            return True
+        if t and t[0] == "Seek" and not (len(t) > 2 and t[2] in (1, 2)):
+            return True
+        return any(uses_offsets(x) for x in t)
+    return False
 
 
 def run_entry(unit, tier, r):
